@@ -211,9 +211,14 @@ Definition parse_sps_avc_raw (payload : bytes) : res avc_ctx :=
     end
   end.
 
-(* ParseSps: bytes.Replace(payload, {0,0,3}, {0,0}, -1), then the reader *)
-Definition parse_sps_avc (payload : bytes) : res avc_ctx :=
-  parse_sps_avc_raw (nal2rbsp payload).
+(* ParseSps: bytes.Replace(payload, {0,0,3}, {0,0}, -1), then the reader.
+   pad = true: the code after the F-13 repair hands nazabits the RBSP copy with one
+   zero byte appended (no zero-width read can sit at the end of the buffer any
+   more); pad = false: the tree before it, kept for the crash witnesses *)
+Definition parse_sps_avc_f (pad : bool) (payload : bytes) : res avc_ctx :=
+  parse_sps_avc_raw (nal2rbsp payload ++ (if pad then [0] else [])).
+Definition parse_sps_avc : bytes -> res avc_ctx := parse_sps_avc_f true.
+Definition parse_sps_avc_pinned : bytes -> res avc_ctx := parse_sps_avc_f false.
 
 Definition avc_sps_fields (c : avc_ctx) : list N :=
   map (fun i => sps_get (N.of_nat i) (ac_sps c)) (seq 0 avc_sps_nfields).
